@@ -18,6 +18,8 @@ structure St where
   trans : List (Ref × Ref)
   next : Nat
   puts : List (Ref × Val)
+  /-- /V of the target's encryption dictionary; 0 for an unencrypted target.  Never changes. -/
+  tgtV : Nat
   deriving Inhabited
 
 /-- `Writer.Alloc`: panics at `maxXRefSize` -/
@@ -25,12 +27,57 @@ def alloc (s : St) : Except CErr (Ref × St) :=
   if s.next ≥ Gen.cpy_maxXRefSize then .error .overflow
   else .ok ((s.next, 0), { s with next := s.next + 1 })
 
+/-- `dictCryptFilter` (writer.go) on a direct stream dictionary: the kind of a /Crypt filter at
+    position 0 of /Filter.  A /Crypt name at a later position is an error; the parameters of the
+    leading one are /DecodeParms itself or the first element of the /DecodeParms array. -/
+def isCryptName : Obj → Bool
+  | .name f => f == nameCrypt
+  | _ => false
+
+def dictCryptKind (d : KV) : Except CErr (Option FKind) :=
+  let names : List Obj :=
+    match kvLookup keyFilter d with
+    | some (.name f) => [.name f]
+    | some (.arr xs) => xs
+    | _ => []
+  let parms : Option KV :=
+    match kvLookup keyDecodeParms d with
+    | some (.dict p) => some p
+    | some (.arr (.dict p :: _)) => some p
+    | _ => none
+  match names with
+  | [] => .ok none
+  | x :: rest =>
+    if isCryptName x then
+      match parseCryptKind parms with
+      | .error e => .error e
+      | .ok k => if rest.any isCryptName then .error .other else .ok (some k)
+    else if rest.any isCryptName then .error .other else .ok none
+
+/-- What `Writer.OpenStream` (called by `Writer.Put` for a stream) refuses because of /Crypt
+    filters named in the stream dictionary: a malformed parameter dictionary, a /Crypt entry that
+    is not the first filter, a leading /Crypt filter other than Identity ("encoding is not yet
+    supported"), and any leading /Crypt filter when the target is encrypted with /V < 4 (crypt
+    filters do not exist there: a reader would decrypt the stream, 5f1fc4f). -/
+def putRefusal (tgtV : Nat) : Val → Option CErr
+  | .obj _ => none
+  | .stream d _ _ =>
+    match dictCryptKind d with
+    | .error e => some e
+    | .ok none => none
+    | .ok (some .cryptCF) => some .other
+    | .ok (some _) => if tgtV ≠ 0 ∧ tgtV < 4 then some .other else none
+
 /-- `Writer.Put` as far as the copier can observe it: `setXRef` refuses an object number that
-    already has an entry (`errDuplicateRef`) and moves `nextRef` past the number. -/
+    already has an entry (`errDuplicateRef`) and moves `nextRef` past the number; a stream whose
+    dictionary names a /Crypt filter the target cannot take is refused (`putRefusal`; the
+    cross-reference entry made by `setXRef` is removed again, nothing is written). -/
 def put (s : St) (r : Ref) (v : Val) : Except CErr St :=
   if s.puts.any (fun p => p.1.1 == r.1) then .error .other
-  else .ok { s with puts := s.puts ++ [(r, v)],
-                    next := if s.next ≤ r.1 then r.1 + 1 else s.next }
+  else match putRefusal s.tgtV v with
+    | some e => .error e
+    | none => .ok { s with puts := s.puts ++ [(r, v)],
+                           next := if s.next ≤ r.1 then r.1 + 1 else s.next }
 
 /-- `c.trans[orig] = new` -/
 def setTrans (orig new : Ref) (tr : List (Ref × Ref)) : List (Ref × Ref) :=
